@@ -79,7 +79,8 @@ package spine
 //@   modifies held
 //@   loop 0 invariant none-yet: forall m int :: 0 <= m && m < $k ==> !deepEqual($s[m].ClientFeature.Address(), remoteAddress)
 
-//@ func (*BindingManager).AddBinding
+//@ func (*BindingManager).AddBinding safety-root
+//@   assumes c != nil && remoteDevice != nil && c.localDevice != nil
 //@   requires c != nil && remoteDevice != nil && data.ClientAddress != nil && data.ServerAddress != nil
 //@   let SF = c.localDevice.FeatureByAddress(data.ServerAddress)
 //@   let CF = remoteDevice.FeatureByAddress(data.ClientAddress)
@@ -93,7 +94,8 @@ package spine
 //@   ensures[C09] noevent: result != nil ==> evn == old(evn)
 //@   modifies c.bindingEntries, c.bindingNum, c.bindingEntries[len(c.bindingEntries)], @PUBLISH, held
 
-//@ func (*BindingManager).RemoveBinding
+//@ func (*BindingManager).RemoveBinding safety-root
+//@   assumes c != nil && remoteDevice != nil && c.localDevice != nil
 //@   requires c != nil && remoteDevice != nil && data.ClientAddress != nil && data.ServerAddress != nil
 //@   let SF = c.localDevice.FeatureByAddress(data.ServerAddress)
 //@   let CF = remoteDevice.FeatureByAddress(data.ClientAddress)
@@ -145,7 +147,8 @@ package spine
 //@   ensures[C08] fresh-id: result == old(c.subscriptionNum) + 1 && c.subscriptionNum == result
 //@   modifies c.subscriptionNum
 
-//@ func (*SubscriptionManager).AddSubscription
+//@ func (*SubscriptionManager).AddSubscription safety-root
+//@   assumes c != nil && remoteDevice != nil && c.localDevice != nil
 //@   requires c != nil && remoteDevice != nil && data.ClientAddress != nil && data.ServerAddress != nil && data.ServerFeatureType != nil
 //@   let SF = c.localDevice.FeatureByAddress(data.ServerAddress)
 //@   let CF = remoteDevice.FeatureByAddress(data.ClientAddress)
@@ -160,7 +163,8 @@ package spine
 //@   modifies c.subscriptionEntries, c.subscriptionNum, c.subscriptionEntries[len(c.subscriptionEntries)], @PUBLISH, held
 //@   loop 0 invariant none-yet: forall j int :: 0 <= j && j < $k ==> !($s[j].ServerFeature == SF && $s[j].ClientFeature == CF)
 
-//@ func (*SubscriptionManager).RemoveSubscription
+//@ func (*SubscriptionManager).RemoveSubscription safety-root
+//@   assumes c != nil && remoteDevice != nil && c.localDevice != nil
 //@   requires c != nil && remoteDevice != nil && data.ClientAddress != nil && data.ServerAddress != nil
 //@   let SF = c.localDevice.FeatureByAddress(data.ServerAddress)
 //@   let CF = remoteDevice.FeatureByAddress(data.ClientAddress)
@@ -463,6 +467,7 @@ package spine
 // What a local feature does with a message (assumed at the call in ProcessCmd; proved on
 // (*FeatureLocal).HandleMessage and (*NodeManagement).HandleMessage).
 //@ iface api.FeatureLocalInterface.HandleMessage
+//@   assumes message != nil && message.FeatureRemote != nil && message.RequestHeader != nil && message.DeviceRemote != nil
 //@   requires message != nil && message.FeatureRemote != nil && message.RequestHeader != nil && message.RequestHeader.AddressDestination != nil
 //@   requires wellformed: (message.CmdClassifier == model.CmdClassifierTypeResult) <==> (message.Cmd.ResultData != nil)
 //@   requires same-peer: message.DeviceRemote != nil && message.DeviceRemote.Sender() == message.FeatureRemote.Device().Sender()
@@ -483,7 +488,8 @@ package spine
 //@   ensures bounded: K <= rn[S] && rn[S] <= K + 1
 //@   modifies @RESP, @PUBLISH, world, held, spawn, sendfails, hmn
 
-//@ func (*DeviceLocal).ProcessCmd
+//@ func (*DeviceLocal).ProcessCmd safety-root
+//@   assumes r != nil && remoteDevice != nil && r.bindingManager != nil
 //@   requires r != nil && remoteDevice != nil && datagram.Header.AddressDestination != nil && datagram.Header.AddressSource != nil && datagram.Header.CmdClassifier != nil && len(datagram.Payload.Cmd) > 0
 //@   requires remoteDevice.FeatureByAddress(datagram.Header.AddressSource) != nil
 //@   requires wellformed: (*datagram.Header.CmdClassifier == model.CmdClassifierTypeResult) <==> (datagram.Payload.Cmd[0].ResultData != nil)
@@ -566,7 +572,8 @@ package spine
 //@   loop 0 invariant each: forall d int :: pre(spawnn) <= d && d < spawnn ==> spawnfn[d] == $s[d - pre(spawnn)] && spawnarg(d, 0, *api.Message) == msg
 //@   loop 0 invariant older: forall d int :: d < pre(spawnn) ==> spawnfn[d] == pre(spawnfn)[d]
 
-//@ func[C01] (*FeatureLocal).HandleMessage impl:api.FeatureLocalInterface.HandleMessage
+//@ func[C01] (*FeatureLocal).HandleMessage impl:api.FeatureLocalInterface.HandleMessage safety-root
+//@   assumes r != nil && r.Feature != nil && r.address != nil && r.responseMsgCallback != nil && r.entity != nil
 //@   requires r != nil && r.Feature != nil && r.address != nil && r.responseMsgCallback != nil
 //@   modifies map(gomap[string]map[model.MsgCounterType]*time.Timer), map(gomap[model.MsgCounterType]*time.Timer), map(gomap[model.MsgCounterType][]func(api.ResponseMessage)), timers
 
@@ -589,7 +596,8 @@ package spine
 //@   ensures[C01] no-response: noResp
 //@   modifies @PUBLISH, world, held
 
-//@ func (*NodeManagement).processNotifyDetailedDiscoveryData trusted
+//@ func (*NodeManagement).processNotifyDetailedDiscoveryData trusted safety-root
+//@   assumes r != nil && r.entity != nil && message != nil && message.FeatureRemote != nil
 //@   ensures[C01] no-response: noResp
 //@   modifies @PUBLISH, world, held
 
@@ -634,6 +642,28 @@ package spine
 //@   ensures[C01] error-silent: result != nil ==> respSame && sendfails >= old(sendfails)
 //@   modifies @RESP, outmisc, sendfails
 
-//@ func[C01] (*NodeManagement).HandleMessage impl:api.FeatureLocalInterface.HandleMessage
+//@ func[C01] (*NodeManagement).HandleMessage impl:api.FeatureLocalInterface.HandleMessage safety-root
+//@   assumes r != nil && r.FeatureLocal != nil && r.FeatureLocal.Feature != nil && r.FeatureLocal.address != nil && r.FeatureLocal.responseMsgCallback != nil && r.entity != nil
 //@   requires r != nil && r.FeatureLocal != nil && r.FeatureLocal.Feature != nil && r.FeatureLocal.address != nil && r.FeatureLocal.responseMsgCallback != nil
 //@   modifies map(gomap[model.MsgCounterType][]func(api.ResponseMessage))
+
+// ---------------------------------------------------------------------------------------
+// further roots of the safety sweep (C05): inbound entry point and the discovery handlers
+//@ func (*DeviceRemote).HandleSpineMesssage safety-root
+//@   assumes d != nil && d.sender != nil && d.localDevice != nil
+//@   modifies @RESP, @PUBLISH, world, held, spawn, hmn, sendfails, map(gomap[model.MsgCounterType]string)
+
+//@ func (*DeviceRemote).AddEntityAndFeatures safety-root
+//@   assumes d != nil && d.Device != nil
+
+//@ func unmarshalFeature safety-root
+//@   assumes entity != nil
+
+//@ func (*DeviceRemote).CheckEntityInformation safety-root
+//@   assumes d != nil && d.Device != nil
+
+//@ func (*FeatureRemote).SetOperations safety-root
+//@   assumes r != nil && r.Feature != nil
+
+//@ func NewEntity safety-root
+
